@@ -1868,7 +1868,7 @@ int main(int argc, char **argv)
     for (int i = 0; i < nunits; i++) {
         unit_t *u = &units[i];
         if (vf_case) { if (strcmp(u->id, want_unit)) continue; }
-        else { if (!vf_mine(i)) continue; if (only_scheme && strcmp(only_scheme, u->scheme)) continue; }
+        else { if (!vf_mine((long) ((vf_hash(u->id, strlen(u->id)) >> 7) % 1000003))) continue; if (only_scheme && strcmp(only_scheme, u->scheme)) continue; }
         /* RSA keys are generated once in the parent and inherited by the forked units */
         if (u->rk && !rsa_ready(u->rk)) continue;
         if (u->rk2 && !rsa_ready(u->rk2)) continue;
